@@ -1214,6 +1214,10 @@ fin:
 	return res;
 }
 
+/* month lengths and weekdays repeat every 28 years, so that many months
+ * in a row without an occurrence means there will never be another one */
+#define MLY_TRIES	(28U * 12U + 1U)
+
 size_t
 rrul_fill_mly(echs_instant_t *restrict tgt, size_t nti, rrulsp_t rr)
 {
@@ -1314,7 +1318,7 @@ rrul_fill_mly(echs_instant_t *restrict tgt, size_t nti, rrulsp_t rr)
 	}
 
 	/* fill up the array the hard way */
-	for (res = 0UL, tries = 64U; res < nti && --tries;
+	for (res = 0UL, tries = MLY_TRIES; res < nti && --tries;
 	     ({
 		     do {
 			     if ((m += rr->inter) > 12) {
@@ -1403,7 +1407,7 @@ rrul_fill_mly(echs_instant_t *restrict tgt, size_t nti, rrulsp_t rr)
 					/* attach scale and convert back to greg */
 					x = echs_instant_attach_scale(x, srcsca);
 
-					tries = 64U;
+					tries = MLY_TRIES;
 					tgt[res + GRP_CCH_OFF] = (echs_instant_t){.y = y, .m = m};
 					tgt[res++] = x;
 				}
